@@ -5,13 +5,11 @@
                  (run_chain_end_closes)
    lazy          ... and, the events arriving in the order of their END offset, the
                  smallest such end: the shortest occurrence (chain_lazy_shortest)
-   greedy        "the longest" is REFUTED for orders a kernel produces
-                 (chain_greedy_longest_refuted): MatchList::add overwrites the end of the
-                 last match of the list without comparing, so the end of the LAST closing
-                 event in arrival order stays -- replayed on the implementation:
-                 /hh.*qq(aqqb)?/s on "hh_qqaqqb" reports (0,8), not (0,9).  Not a defect:
-                 which of the genuine lengths a greedy regexp reports is not documented
-                 (and 0..8 is what a backtracking greedy matcher gives). *)
+   greedy        every end is a closing end, and a reported end never shrinks
+                 (MatchList::add compares in both arms since commit a09b6a08; before, "the
+                 longest" was refuted by the trace of /hh.*qq(aqqb)?/s on "hh_qqaqqb").
+                 That it is the LARGEST closing end is not proved here: it needs every
+                 closing event to re-report the start during its walk. *)
 From Coq Require Import List NArith Bool Arith Lia Sorted.
 From YV Require Import Pat.Syntax Pat.Sem Pat.Matcher Pat.MatcherProofs Pat.Modifiers Pat.MatchList Pat.MatchListProofs
                        Pat.Chain Pat.ChainProofs Pat.ChainRun Pat.ChainRunProofs Pat.ChainCompleteProofs.
@@ -170,24 +168,19 @@ Section Ends.
   Qed.
 End Ends.
 
-(* ---- greedy: not the longest ---------------------------------------------------------- *)
+(* ---- greedy ------------------------------------------------------------------------------ *)
 (* /hh.*qq(aqqb)?/s on "hh_qqaqqb": the events as the implementation produces them (both
-   kernels; hook trace): head 0..2, last piece 3..9, last piece 6..8 *)
+   kernels; hook trace): head 0..2, last piece 3..9, last piece 6..8.  Before commit
+   a09b6a08 MatchList::add overwrote the end of the last match of the list without
+   comparing, the end of the LAST closing event stayed (0..8) and "greedy reports the
+   longest" was refuted by this very trace; now both arms compare and 0..9 stays. *)
 Definition greedy_pieces : list cpiece :=
   [mkCP false [104; 104]%N no_flags false true None; mkCP true [] no_flags true true (Some (0, GUnbounded 0))].
 Definition greedy_events : list event := [(0, 0, 2); (1, 3, 9); (1, 6, 8)].
 
-Theorem chain_greedy_longest_refuted :
-  exists pieces gp evs y s e,
-    events_ordered_b evs = true /\ In y (run_chain pieces evs) /\ m_start y = 0%N /\
-    left gp evs 1 s e 0 /\ (m_end y < N.of_nat e)%N.
-Proof.
-  exists greedy_pieces, (fun _ => GUnbounded 0), greedy_events, (mkM 0 8 None), 3, 9.
-  split; [vm_compute; reflexivity|]. split; [vm_compute; left; reflexivity|]. split; [reflexivity|].
-  split; [|vm_compute; reflexivity].
-  cbn [left]. split; [right; left; reflexivity|]. exists 0, 2. split; [|reflexivity].
-  split; [left; reflexivity|reflexivity].
-Qed.
+Example chain_greedy_keeps_the_longer_end :
+  map (fun y => (m_start y, m_end y)) (run_chain greedy_pieces greedy_events) = [(0, 9)]%N.
+Proof. vm_compute. reflexivity. Qed.
 
 (* ---- end to end: the lazy chain of a split pattern, fed with every end of every piece,
    reports for every start the SHORTEST occurrence ---------------------------------------- *)
